@@ -164,7 +164,7 @@ def judge_pool(ctx, groups):
 REAL_CHILD = r"""
 import sys, json, time, logging
 logging.disable(logging.CRITICAL)
-n, w, m, raises, tol, tdur, cdelay, unpick = json.loads(sys.argv[1])
+n, w, m, raises, tol, tdur, cdelay, unpick, userun = json.loads(sys.argv[1])
 import annet.parallel as P
 raises = set(raises) - set(unpick)
 unpick = set(unpick)
@@ -184,9 +184,23 @@ def f(i):
 out = []; end = "done"; exc = ""
 try:
     p = P.Parallel(f).tune(parallel=w, max_tasks=m)
-    for r in p.irun(list(range(1, n + 1)), tol):
-        out.append({"id": r.device_id, "val": r.result if isinstance(r.result, int) else -1, "failed": r.exc is not None})
-        time.sleep(cdelay)
+    if userun:
+        # Parallel.run: the caller gets two dicts, successes and failures (and an error when it asked for a strict exit code)
+        try:
+            success, fail = p.run(list(range(1, n + 1)), tol, userun == 2)
+            for k, v in success.items():
+                out.append({"id": k, "val": v if isinstance(v, int) else -1, "failed": False})
+            for k, v in fail.items():
+                out.append({"id": k, "val": -1, "failed": True})
+        except RuntimeError as e:
+            if userun == 2 and str(e).startswith("failed for"):
+                end = "strict"; exc = str(e)
+            else:
+                raise
+    else:
+        for r in p.irun(list(range(1, n + 1)), tol):
+            out.append({"id": r.device_id, "val": r.result if isinstance(r.result, int) else -1, "failed": r.exc is not None})
+            time.sleep(cdelay)
 except BaseException as e:
     end = "raised"; exc = type(e).__name__
 print("RESULT " + json.dumps({"end": end, "out": out, "exc": exc}))
@@ -357,15 +371,17 @@ def run(ctx):
         n, w, m, raises, tol = rnd.choice([c for c in cfgs if c[0] >= 2])
         # some failing ids fail by RETURNING a value that cannot be pickled (multi-process branch only: pool size >= 2)
         unpick = [i for i in raises if i % 2 == 0] if min(w, n) >= 2 and rnd.random() < 0.6 else []
-        grid.append([n, w, m, list(raises), tol, rnd.choice([0.0, 0.004, 0.02]), rnd.choice([0.0, 0.01, 0.05, 0.12]), unpick])
-    grid += [[8, 3, 0, [4], True, 0.0, 0.0, [4]], [12, 3, 2, [4, 9], True, 0.004, 0.01, [4, 9]], [6, 2, 1, [2], True, 0.0, 0.05, [2]],
-             [7, 4, 3, [2, 6], False, 0.004, 0.0, [2, 6]]]
+        grid.append([n, w, m, list(raises), tol, rnd.choice([0.0, 0.004, 0.02]), rnd.choice([0.0, 0.01, 0.05, 0.12]), unpick, rnd.choice([0, 0, 1, 2])])
+    grid += [[8, 3, 0, [4], True, 0.0, 0.0, [4], 0], [12, 3, 2, [4, 9], True, 0.004, 0.01, [4, 9], 1], [6, 2, 1, [2], True, 0.0, 0.05, [2], 2],
+             [7, 4, 3, [2, 6], False, 0.004, 0.0, [2, 6], 0], [9, 3, 2, [], True, 0.0, 0.0, [], 2], [9, 3, 2, [3, 4], True, 0.0, 0.0, [], 2],
+             [5, 1, 0, [2], True, 0.0, 0.0, [], 2], [5, 1, 0, [2], True, 0.0, 0.0, [], 1]]
     nreal = len(grid)
     with cf.ThreadPoolExecutor(max_workers=core.NCPU) as ex:
         for k, (args, res) in enumerate(zip(grid, ex.map(real_run, grid))):
             n, w, m, raises, tol = args[:5]
             ctx.count()
-            rec = {"id": "real-%d" % k, "ev": [], "end": res["end"], "out": res["out"], "exc": res["exc"], "mode": "final", "args": args}
+            rec = {"id": "real-%d" % k, "ev": [], "end": res["end"], "out": res["out"], "exc": res["exc"], "mode": "final", "args": args,
+                   "viaRun": args[8] > 0, "strict": args[8] == 2}
             groups.setdefault((n, max(2, min(w, n)), m, tuple(raises), tol), []).append(rec)
             if len(res["out"]) > 1:
                 ctx.nontrivial(("real", json.dumps(args)))
